@@ -677,7 +677,7 @@ static MigCase genMig()
 {
   MigCase c;
   c.ndim = G::pick<int>({1, 2, 2, 3});
-  int n1 = G::pct(60) ? G::sz(1, 40) : G::sz(20, 160);
+  int n1 = G::pct(50) ? G::sz(1, 40) : G::sz(20, 500);
   int n2 = G::sz(1, 12);
   vfgeo::Lattice lat;
   std::vector<vfgeo::Points> sets = vfgeo::genPointSets(c.ndim, {n1, n2}, G::pct(30), true, -1., &lat);
